@@ -414,7 +414,6 @@ func c10FailedResultUsed(ctx *core.Ctx, r *core.Report) {
 
 // conversions that are exact by a domain invariant the width analysis cannot see.
 var c10Triage = map[string]string{
-	"node.toEnum/uint→int": "the operand is the Value() of val.Conv(FmtUInt32, …): a Go uint that holds a uint32 by construction; exact in a 64-bit int (reported on GOARCH=386 in the thorough tier, where int is 32 bits)",
 }
 
 // lossyConversions applies the integer-width rule to every numeric conversion
